@@ -27,7 +27,7 @@ def _copy_tree(dst):
 
 
 def _apply(variant, dst) -> str:
-    if variant["kind"] == "seeded":
+    if "seed" in variant:
         pf = os.path.join(core.VERIF, "seeded", variant["seed"], "patch.diff")
         r = subprocess.run(["patch", "-p1", "-s", "-f", "--no-backup-if-mismatch", "-i", pf], cwd=dst, capture_output=True, text=True)
         return "ok" if r.returncode == 0 else "stale"
@@ -35,6 +35,17 @@ def _apply(variant, dst) -> str:
     if not os.path.exists(path):
         return "stale"
     src = open(path, encoding="utf-8").read()
+    if "lineno" in variant:
+        # computed edit: replace one line of the current tree (position taken from the syntax tree of this run)
+        lines = src.split("\n")
+        lines[variant["lineno"] - 1] = variant["text"]
+        src = "\n".join(lines)
+        try:
+            compile(src, path, "exec")
+        except SyntaxError:
+            return "syntax"
+        open(path, "w", encoding="utf-8").write(src)
+        return "ok"
     if variant["old"] not in src:
         return "stale"
     src = src.replace(variant["old"], variant["new"], 1)
@@ -101,6 +112,52 @@ def run_variant(args):
     return out
 
 
+def computed_variants(prop: str) -> List[dict]:
+    """Edits computed from the syntax tree of the current working tree for the two cross-cutting rules: (a) one
+    parameter of an anchored function is renamed in the signature only, so the function no longer reads it;
+    (b) a `break` is put in front of the body of a loop with effects."""
+    import ast
+    from rules import common
+    repo = core.Repo(core.REPO)
+    sc, ents, _ = common.scope(repo, prop)
+    out = []
+    fis = sorted((fi for fi in repo.all_functions() if (fi.file, fi.qual) in sc and fi.file not in common.SKIP_FILES),
+                 key=lambda f: ((f.file, f.qual) not in ents, f.file, f.qual))
+    for fi in fis:
+        if fi.name in common.INTERFACE_METHODS:
+            continue
+        used = {x.id for x in ast.walk(fi.node) if isinstance(x, ast.Name) and isinstance(x.ctx, ast.Load)}
+        a = fi.node.args
+        cands = [x for x in a.posonlyargs + a.args + a.kwonlyargs if x.arg not in ("self", "cls") and x.arg in used
+                 and x.lineno == x.end_lineno]
+        if not cands:
+            continue
+        x = cands[-1]
+        line = open(os.path.join(core.REPO, fi.file), encoding="utf-8").read().split("\n")[x.lineno - 1]
+        new = line[:x.col_offset] + x.arg + "_unused" + line[x.col_offset + len(x.arg):]
+        out.append({"id": f"{prop}-auto-params", "kind": "break", "rule": f"R-{prop}-params", "file": fi.file,
+                    "lineno": x.lineno, "text": new, "what": f"parameter `{x.arg}` of {fi.qual} renamed in the signature only"})
+        break
+    for fi in fis:
+        done = False
+        for lp in ast.walk(fi.node):
+            if isinstance(lp, ast.For) and len(lp.body) >= 1 and any(common._has_effect(s2) for s2 in lp.body) \
+                    and not isinstance(lp.body[0], (ast.For, ast.While)):
+                b0 = lp.body[0]
+                line = open(os.path.join(core.REPO, fi.file), encoding="utf-8").read().split("\n")[b0.lineno - 1]
+                ind = line[:len(line) - len(line.lstrip())]
+                if b0.col_offset != len(ind):
+                    continue
+                out.append({"id": f"{prop}-auto-loops", "kind": "break", "rule": f"R-{prop}-loops", "file": fi.file,
+                            "lineno": b0.lineno, "text": f"{ind}if len(str(0)) == 1:\n{ind}    break\n{line}",
+                            "what": f"`break` in front of the body of `{ast.unparse(lp).splitlines()[0][:50]}` in {fi.qual}"})
+                done = True
+                break
+        if done:
+            break
+    return out
+
+
 def run(prop: str, subset=None) -> Dict:
     from selftest.variants import VARIANTS
 
@@ -113,7 +170,11 @@ def run(prop: str, subset=None) -> Dict:
             if os.path.exists(os.path.join(sd, name, "patch.diff")):
                 props = open(meta).read().split() if os.path.exists(meta) else [name.split("-")[0]]
                 if prop in props and (subset is None or name in subset):
-                    vs.append({"id": name, "kind": "seeded", "seed": name})
+                    # <Cxx-pN> = behaviour-preserving refactoring by an independent author: must stay silent
+                    kind = "preserve" if name.split("-")[1].startswith("p") else "seeded"
+                    vs.append({"id": name, "kind": kind, "seed": name})
+    if subset is None:
+        vs += computed_variants(prop)
     if not vs:
         return {"variants": 0, "results": [], "ok": True, "problems": []}
     from multiprocessing import Pool
